@@ -23,7 +23,7 @@ typedef int (*local_fn)(const char *, const char *);
 static local_fn LOCAL[4] = { is_822_local, is_5321_local, is_5322_local, is_6531_local };
 static const char *MN[4] = { "822", "5321", "5322", "6531" };
 static const EAV_RFC RFC[4] = { EAV_RFC_822, EAV_RFC_5321, EAV_RFC_5322, EAV_RFC_6531 };
-static eav_t OBJ[4][2], OBJ_B[4], OBJ_C[4];
+static eav_t OBJ[4][2], OBJ_B[4], OBJ_C[4], OBJ_D[4], OBJ_E[4];
 
 static void mk(eav_t *e, int m, int tld) {
     memset(e, 0, sizeof *e); eav_init(e); e->rfc = RFC[m]; e->tld_check = tld;
@@ -34,6 +34,8 @@ static void setup_objects(void) {
         mk(&OBJ[m][0], m, 0); mk(&OBJ[m][1], m, 1);
         mk(&OBJ_B[m], (m + 1) % 4, 0); OBJ_B[m].rfc = RFC[m]; if (eav_setup(&OBJ_B[m]) != 0) exit(2);
         mk(&OBJ_C[m], m, 0); OBJ_C[m].rfc = RFC[(m + 2) % 4];          /* written, never confirmed */
+        mk(&OBJ_D[m], m, 0); if (eav_setup(&OBJ_D[m]) != 0 || eav_setup(&OBJ_D[m]) != 0) exit(2);      /* the same mode confirmed three times */
+        mk(&OBJ_E[m], m, 0); OBJ_E[m].rfc = RFC[(m + 3) % 4]; if (eav_setup(&OBJ_E[m])) exit(2); OBJ_E[m].rfc = RFC[m]; if (eav_setup(&OBJ_E[m])) exit(2);   /* m, other, m */
     }
 }
 
@@ -142,6 +144,12 @@ static void check_email(const char *sub, const unsigned char *s, size_t n) {
                 MC_ADD(C_EVAL, 2);
                 if (rb != ret || eb != e->errcode)
                     mc_violation(sub, "mode-binding:after-earlier-setup", "", cfg, s, n, "object set up as another mode first, then mode %s: ret=%d errcode=%d, fresh object ret=%d errcode=%d", MN[m], rb, eb, ret, e->errcode);
+                int rd = eav_is_email(&OBJ_D[m], buf, n), ed = OBJ_D[m].errcode, re = eav_is_email(&OBJ_E[m], buf, n), ee = OBJ_E[m].errcode;
+                MC_ADD(C_EVAL, 2);
+                if (rd != ret || ed != e->errcode)
+                    mc_violation(sub, "mode-binding:same-mode-confirmed-repeatedly", "", cfg, s, n, "eav_setup called three times with mode %s: ret=%d errcode=%d, single setup ret=%d errcode=%d", MN[m], rd, ed, ret, e->errcode);
+                if (re != ret || ee != e->errcode)
+                    mc_violation(sub, "mode-binding:mode-other-mode", "", cfg, s, n, "setup %s, another mode, %s again: ret=%d errcode=%d, single setup ret=%d errcode=%d", MN[m], MN[m], re, ee, ret, e->errcode);
                 if (rcc != ret || ec != e->errcode)
                     mc_violation(sub, "mode-binding:rfc-written-without-setup", "", cfg, s, n, "eav->rfc overwritten without eav_setup changed the outcome: ret=%d errcode=%d vs ret=%d errcode=%d", rcc, ec, ret, e->errcode);
             }
